@@ -54,13 +54,14 @@ func (cs *ContractStore) Delete(prefix []byte, key []byte) (bool, error) {
 }
 
 func (cs *ContractStore) Iterate(prefix []byte, fn func(key []byte, value []byte) bool) (stop bool) {
-	prefixKey := append(cs.prefix, prefix...)
-	return cs.State.IterateRange(
-		prefixKey,
-		storage.Rangefix(string(prefixKey)),
-		true,
-		fn,
-	)
+	// not IterateRange up to Rangefix: the keys behind the prefix are binary (any byte, also above "~"),
+	// and the entries written in the current block count too
+	start, end := cs.storageRange(prefix)
+	cs.State.IterateRangeUncommitted(start, end, true, func(key, value []byte) bool {
+		stop = fn(key, value)
+		return stop
+	})
+	return stop
 }
 
 // DeleteStorage removes every storage entry of the given account, those written in the current block included.
